@@ -15,9 +15,9 @@ func VerifRooted(parent, name string) (string, bool) {
 	return r, err == nil
 }
 
-// VerifParseTemplate runs ParseTemplate (parsing and expansion only, no type
+// VerifParseTemplateErr runs ParseTemplate (parsing and expansion only, no type
 // checking) and returns its error.
-func VerifParseTemplate(fsys fs.FS, name string) error {
+func VerifParseTemplateErr(fsys fs.FS, name string) error {
 	_, err := ParseTemplate(fsys, name, false, nil)
 	return err
 }
